@@ -3,7 +3,7 @@ import re
 
 from qv.facts import callee_name, const_name, const_int, is_place, op_str
 from qv.flow import slice_of
-from qv import paths, tables, effects
+from qv import paths, tables, effects, origins
 from qv.rulelib import W, calls_in, one_call
 
 WRITER_TY = 'message::writer::Writer'
@@ -280,6 +280,7 @@ def check_anchor_freshness(R, F, rule='anchor-fresh'):
         for cb, ct in calls_in(ar, W + callee):
             n += 1
             assigns = set()
+            mixed = []
             for b, blk in enumerate(ar.blocks):
                 if blk['cleanup']:
                     continue
@@ -287,7 +288,13 @@ def check_anchor_freshness(R, F, rule='anchor-fresh'):
                     if st['k'] == 'assign' and st['lhs']['p'] and isinstance(st['lhs']['p'][-1], dict) and st['lhs']['p'][-1].get('n') == field and st['rv']['k'] == 'use':
                         sl = slice_of(ar, st['rv']['op'], through_calls=True)
                         if ('call', cb) in sl.nodes:
-                            assigns.add(b)
+                            # ... and it is that result itself, not a combination with the previous anchor (`new.or(old)`)
+                            o_ = st['rv']['op']
+                            lv = origins.trace(ar, o_['pl']['l'], origins.norm_path(o_['pl']['p']), at=(b, 0)) if is_place(o_) else []
+                            if lv and all(lf[0] == 'call' and lf[1] == cb for lf in lv):
+                                assigns.add(b)
+                            else:
+                                mixed.append(ar.where(b))
                 t = blk['term']
                 if t['k'] == 'call' and b == cb and t['dest']['p'] and isinstance(t['dest']['p'][-1], dict) and t['dest']['p'][-1].get('n') == field:
                     assigns.add(b)
@@ -298,9 +305,9 @@ def check_anchor_freshness(R, F, rule='anchor-fresh'):
             p = None
             if ct['t'] is not None and cb not in assigns:
                 p = paths.must_pass(ar, ct['t'], set(rets) | set(nxt), stop)
-            R.require(bool(assigns) and p is None, rule, '%s|%s<-%s#%d' % (ar.gpath, field, callee, n), ar.where(cb),
+            R.require(bool(assigns) and p is None and not mixed, rule, '%s|%s<-%s#%d' % (ar.gpath, field, callee, n), ar.where(cb),
                       '%s is replaced by the result of %s on every successful path, before the next write' % (field, callee),
-                      '%s is not updated from the result of %s on every successful path (%s): a stale anchor of an earlier, different name survives' % (field, callee, paths.fmt_path(ar, p) if p else 'no assignment found'))
+                      '%s is not updated from the result of %s on every successful path (%s): a stale anchor of an earlier, different name survives' % (field, callee, paths.fmt_path(ar, p) if p else ('the value stored at %s is not the result alone' % mixed if mixed else 'no assignment found')))
     R.floor(rule, 3)
 
 
